@@ -148,8 +148,15 @@ def c14_sched(job, drv):
             elif kind == 3:
                 with open(cachepath, "rb") as f:
                     b = f.read()
+                tr = job.get("trunc") or {"frac": 1 / 3}
+                if "abs" in tr:
+                    cut = min(tr["abs"], len(b) - 1)
+                elif "from_end" in tr:
+                    cut = max(len(b) - tr["from_end"], 0)
+                else:
+                    cut = int(len(b) * tr["frac"])
                 with open(cachepath, "wb") as f:
-                    f.write(b[:len(b) // 3])
+                    f.write(b[:cut])
         refs_new = refs()
         drv.reset_lazies()          # the very first requests after start-up
         n = job["n"]
@@ -316,10 +323,15 @@ def _client_ctx():
     return ctx
 
 
-def _exchange(port, rq, barrier=None, handshake_first=True, timeout=30):
+def _exchange(port, rq, barrier=None, handshake_first=True, timeout=30, connect_late=False):
     err = None
     data = b""
     try:
+        if connect_late and barrier is not None:
+            # more clients than the forking server has worker slots (socketserver max_children = 40): clients that
+            # held an idle connection while waiting for the others would starve those others of a worker
+            barrier.wait(30)
+            barrier = None
         s = socket.create_connection(("127.0.0.1", port), timeout=timeout)
         try:
             if rq["tls"] and handshake_first:
@@ -357,7 +369,8 @@ def _burst(port, rqs, stagger_handshake):
     outs = [None] * n
 
     def run(i):
-        outs[i] = _exchange(port, rqs[i], barrier, handshake_first=(not stagger_handshake or i % 2 == 0))
+        outs[i] = _exchange(port, rqs[i], barrier, handshake_first=(not stagger_handshake or i % 2 == 0),
+                            connect_late=(n > 32))
 
     ts = [threading.Thread(target=run, args=(i,), daemon=True) for i in range(n)]
     for t in ts:
